@@ -30,7 +30,7 @@ Definition exact_b (bi : list name) (ns : list (list name)) (p : program) : bool
           (fst (finder bi ns false p)).
 
 Definition stage_of (p : program) : nat :=
-  if s1_block p then 1 else if s2_block p then 2 else 0.
+  if s1_block p then 1 else if s2_block p then 2 else if s3_block p then 3 else 0.
 
 (* unused_sound on one program: no reported-unused import is the binding of a read *)
 Definition is_bound_to (l : nat) (i : import) (r : res) : bool :=
